@@ -22,8 +22,13 @@ EXPLANATION = (
     "in C03-C05: result, position, user stack, rule stack, atomic depth, tag stack, furthest-failure position and label "
     "bookkeeping, delivered pairs - for all inputs, start positions, parser states and child behaviours, with `matched` "
     "unassigned at entry and arbitrary junk left by failing children.  Rule.generate (12 modifier/name instances), "
-    "generate_parse_trivia (8 configurations) and the emitted parse() entry point likewise.  Module assembly and "
-    "byte-identical regeneration are bounded structural checks on emitted modules (labelled bounded)."
+    "generate_parse_trivia (8 configurations) and the emitted parse() entry point likewise.  The stub-children templates "
+    "are representative because parse() / generate() test the class or tag of a child only at the audited sites "
+    "(templates.stubs_representative) and the generate() of the four bounded repetitions is proved, for symbolic n, to be "
+    "nothing but the delegation to the unrolled sequence.  Module assembly: the names a generated module binds are "
+    "decided for all rule names by structure (C01.module_names), the generator's write effects by a syntactic "
+    "modifies-audit; rule map / enum contents, name-stress grammars, byte-identical regeneration and generation-order "
+    "independence are bounded checks on emitted modules (labelled bounded)."
 )
 TRUSTED = [
     *g.COMMON_TRUSTED,
